@@ -187,6 +187,7 @@ UNITS['c13l'] = {
 UNITS['c11t'] = {
     'template': 'contracts/c11t.vrs',
     'mutants': [
+        ('node_span_ends_where_the_last_token_starts', 'Some(Span::new(s.locator().clone(), s.start()..e.end()))', 'Some(Span::new(s.locator().clone(), s.start()..e.start()))', ['C11.noderef.span']),
         ('token_child_becomes_an_error_node', 'ParserMatch::Token(t) => self.tree.new_node(SyntaxNode::new(SyntaxTrunk::Leaf(t))),', 'ParserMatch::Token(t) => self.tree.new_node(SyntaxNode::new(SyntaxTrunk::Error)),', ['C11.compose_node']),
         ('empty_compose_builds_a_node', 'if children.is_empty() { return ParserMatch::Syntax(kind); }', '', ['C11.compose']),
         ('child_attached_to_itself', 'self.tree.append(parent, n)', 'self.tree.append(n, n)', ['C11.compose_node']),
